@@ -11,3 +11,8 @@ import TypedpyModel.Props.C01
 #print axioms Typedpy.C01.constructH_then_chain_sound
 #print axioms Typedpy.C01.constructH_no_hook
 #print axioms Typedpy.C01.hook_example
+#print axioms Typedpy.C01.wellFormed_field
+#print axioms Typedpy.C01.chain_ipv4_field_sound
+#print axioms Typedpy.C01.chain_hostname_field_sound
+#print axioms Typedpy.C01.chain_sized_field_sound
+#print axioms Typedpy.C01.formatted_example
